@@ -151,6 +151,8 @@ pub trait Elem: Sized + Clone + fmt::Debug + 'static {
     /// has a ledger identity
     const TRACKED: bool;
     const ZST: bool;
+    /// `Clone::clone` of this type is counted by the ledger (and can be made to panic)
+    const COUNTS_CLONES: bool = false;
     /// fresh element (fresh id / fresh counter value)
     fn make() -> Self;
     /// identity of this element (an *observation*)
@@ -170,6 +172,7 @@ macro_rules! impl_tr {
             const NAME: &'static str = $name;
             const TRACKED: bool = true;
             const ZST: bool = false;
+            const COUNTS_CLONES: bool = true;
             fn make() -> Self {
                 Tr::new()
             }
@@ -193,6 +196,7 @@ impl Elem for TrZ {
     const NAME: &'static str = "TrZ";
     const TRACKED: bool = false;
     const ZST: bool = true;
+    const COUNTS_CLONES: bool = true;
     fn make() -> Self {
         TrZ::new()
     }
@@ -288,6 +292,40 @@ impl Elem for [u8; 24] {
             }
         }
         v
+    }
+}
+
+/// Clone-but-not-Copy element with NO drop glue whose clones are counted: selects the crate's
+/// `needs_drop == false` code paths while keeping `Clone::clone` observable.
+#[derive(Debug, PartialEq)]
+pub struct Nd(pub u32);
+impl Clone for Nd {
+    fn clone(&self) -> Self {
+        if ledger::note_clone() {
+            std::panic::panic_any(Injected("clone"));
+        }
+        Nd(self.0)
+    }
+}
+impl Default for Nd {
+    fn default() -> Self {
+        ledger::tick("default");
+        Nd(plain_next())
+    }
+}
+impl Elem for Nd {
+    const NAME: &'static str = "Nd";
+    const TRACKED: bool = false;
+    const ZST: bool = false;
+    const COUNTS_CLONES: bool = true;
+    fn make() -> Self {
+        Nd(plain_next())
+    }
+    fn is_clone_of(&self, o: &Self) -> bool {
+        self.0 == o.0
+    }
+    fn ident(&self) -> u32 {
+        self.0
     }
 }
 
